@@ -89,6 +89,41 @@ func (g *c06gen) term(depth int) *RT {
 			return g.atom()
 		}
 	}
+	if g.r.intn(5) == 0 { // operator nests: an operator term as the operand of another, over leaves of every token class
+		ops := []string{"-", "+", "\\+", "\\", "mod", "rem", "is", "xor", "*", "^", "=", "<", ":-", "dynamic", "++", "!!", "+++", "bar", "=>", "@", "$", "**", ",", "->", "|"}
+		leaf := func() *RT {
+			switch g.r.intn(6) {
+			case 0:
+				g.nvar++
+				return &RT{K: 'v', V: g.nvar - 1}
+			case 1:
+				return g.number()
+			case 2:
+				return &RT{K: 'a', S: []string{"#", "+", "-", "*", "=.."}[g.r.intn(5)]}
+			case 3:
+				return &RT{K: 'a', S: []string{"A", "Is", "hello world", "[]", "{}", "é"}[g.r.intn(6)]}
+			default:
+				return &RT{K: 'a', S: []string{"a", "b", "foo", "x1"}[g.r.intn(4)]}
+			}
+		}
+		op := func() string { return ops[g.r.intn(len(ops))] }
+		inner := func() *RT {
+			if g.r.coin(0.5) {
+				return &RT{K: 'c', S: op(), Args: []*RT{leaf()}}
+			}
+			return &RT{K: 'c', S: op(), Args: []*RT{leaf(), leaf()}}
+		}
+		switch g.r.intn(4) {
+		case 0:
+			return &RT{K: 'c', S: op(), Args: []*RT{inner(), leaf()}}
+		case 1:
+			return &RT{K: 'c', S: op(), Args: []*RT{leaf(), inner()}}
+		case 2:
+			return &RT{K: 'c', S: op(), Args: []*RT{inner()}}
+		default:
+			return &RT{K: 'c', S: op(), Args: []*RT{inner(), inner()}}
+		}
+	}
 	switch g.r.intn(14) {
 	case 0:
 		return g.term(0)
